@@ -6,6 +6,7 @@ import (
 	"encoding/json"
 	"fmt"
 	"math/rand"
+	"strings"
 
 	"github.com/opencontainers/go-digest"
 	ocispec "github.com/opencontainers/image-spec/specs-go/v1"
@@ -27,6 +28,10 @@ type Gen struct {
 	Writers   []*WriterInfo
 	Large     bool
 	NoUploads bool
+	// name pools for the malformed stream (a harness may extend them before the first Next)
+	BadRepos   []string // names the repository grammar refuses
+	BadTags    []string // names the tag grammar refuses
+	BadDigests []string // strings that are no digest of a registered algorithm
 	count     int
 	// queue: operations scripted ahead (a directed follow-up to something that just happened);
 	// Next hands them out before drawing anything new
@@ -55,11 +60,61 @@ type WriterInfo struct {
 	Dead    bool
 }
 
+// Name pools.  The repository grammar of the distribution specification is
+//
+//	[a-z0-9]+((\.|_|__|-+)[a-z0-9]+)*(\/[a-z0-9]+((\.|_|__|-+)[a-z0-9]+)*)*
+//
+// and a registry has to take every name of it, not only the ones everybody uses: SepRepos /
+// PathRepos walk through every alternative (each separator: one dot, one underscore, two
+// underscores, one dash, runs of dashes; digits only, digit first; several separators in one
+// element; two to five path elements), NearRepos are the closest names outside it (three
+// underscores, two dots, two different separators in a row, a separator first or last, an
+// upper-case letter, an empty path element) written with bytes that survive a URL path, so
+// that the harnesses that run histories through HTTP can use them as well.  Tags
+// ([a-zA-Z0-9_][a-zA-Z0-9._-]{0,127}) and digests likewise.
+var (
+	SepRepos = []string{"a.b", "a_b", "a__b", "a-b", "a--b", "a---b", "0", "9lives", "x1.y2_z3", "a0__b1-c2.d3", "r-1--2", "lib__v2",
+		"0_0", "1__1", "2.2", "k8s", "a-b_c.d__e---f"}
+	PathRepos = []string{"a/b", "a/b/c", "team__project/img", "org.example/app_v2/linux--amd64", "0/1/2/3", "a.b/c_d/e__f/g-h/i--j",
+		"x/y__z", "lib/0", "a__b/a__b", "r1/sub", "n-1/n_2/n.3"}
+	NearRepos = []string{"BAD", "a___b", "a____b", "a..b", "a._b", "a_.b", "a.-b", "a-.b", "a-_b", "a__-b", "a__.b", "_a", "a_", "a__", "__a",
+		"-a", "a-", ".a", "a.", "A/b", "a/B", "aB", "a/_b", "a/b-", "a_/b", "team___project/img"}
+	RareTags = []string{"_", "_t", "__", "0", "9", "1.0", "v1.0.0-rc.1", "a..b", "a--b", "a-.b", "T", "UPPER", "MiXed_9", "x_", "x-", "x.", "t__2",
+		"0-", "_.-", maxTag}
+	NearTags = []string{"bad tag", ".dot", "-dash", maxTag + "x", "a+b", "a~b"}
+	// no digest of a registered algorithm: hex of the wrong case / length / alphabet, unknown
+	// or misspelt algorithm, parts missing
+	NearDigests = []string{"sha256:zz",
+		"sha256:E3B0C44298FC1C149AFBF4C8996FB92427AE41E4649B934CA495991B7852B855",
+		"sha256:e3b0c44298fc1c149afbf4c8996fb92427ae41e4649b934ca495991b7852b85",
+		"sha256:e3b0c44298fc1c149afbf4c8996fb92427ae41e4649b934ca495991b7852b8555",
+		"sha256:g3b0c44298fc1c149afbf4c8996fb92427ae41e4649b934ca495991b7852b855",
+		"SHA256:e3b0c44298fc1c149afbf4c8996fb92427ae41e4649b934ca495991b7852b855",
+		"sha-256:e3b0c44298fc1c149afbf4c8996fb92427ae41e4649b934ca495991b7852b855",
+		"sha512:e3b0c44298fc1c149afbf4c8996fb92427ae41e4649b934ca495991b7852b855",
+		"sha224:d14a028c2a3a2bc9476102bb288234c415a2b01f828ea62ac5b3e42f",
+		"md5:d41d8cd98f00b204e9800998ecf8427e",
+		"sha256", "sha256:", "e3b0c44298fc1c149afbf4c8996fb92427ae41e4649b934ca495991b7852b855"}
+)
+
+// a tag of the greatest length the grammar allows (128)
+var maxTag = strings.Repeat("Ab0._-zZ", 16)
+
 func NewGen(r *rand.Rand, large bool) *Gen {
 	g := &Gen{R: r, Large: large, Blobs: map[string][]string{}, Manifests: map[string][]ManRef{}, TagsSet: map[string][]string{},
 		Subjects: map[string][]string{}, Gone: map[string][]string{}}
 	g.Repos = []string{"r1", "r2", "a/b"}
 	g.Tags = []string{"t1", "t2", "latest"}
+	// two histories in three: the second and third repository, and the second tag, are drawn
+	// from the pools that walk through the grammars
+	if r.Intn(3) != 0 {
+		g.Repos[1] = SepRepos[r.Intn(len(SepRepos))]
+		g.Repos[2] = PathRepos[r.Intn(len(PathRepos))]
+		g.Tags[1] = RareTags[r.Intn(len(RareTags))]
+	}
+	g.BadRepos = NearRepos
+	g.BadTags = NearTags
+	g.BadDigests = NearDigests
 	if large {
 		for i := 0; i < 6; i++ {
 			g.Repos = append(g.Repos, fmt.Sprintf("proj%d/img", i))
@@ -87,12 +142,15 @@ func (g *Gen) pick(ss []string) string { return ss[g.R.Intn(len(ss))] }
 func (g *Gen) repo() string {
 	switch p := g.R.Intn(40); {
 	case p == 0:
-		return "BAD"
+		return g.pick(g.BadRepos)
 	case p == 1:
 		return ""
-	case p == 2:
-		return "unknown/repo"
+	case p == 2: // well-formed, never written to
+		return []string{"unknown/repo", "un__known/re--po.0"}[g.R.Intn(2)]
 	case p == 3:
+		if g.R.Intn(2) == 0 {
+			return g.pick(g.Repos) + "/"
+		}
 		return "r1/"
 	}
 	// mostly a repository that already holds something
@@ -152,7 +210,9 @@ func (g *Gen) tag() string {
 	case p == 0:
 		return "bad tag"
 	case p == 1:
-		return ".dot"
+		return g.pick(g.BadTags)
+	case p == 2: // a legal tag of a rare shape, whatever the history's own tags are
+		return RareTags[g.R.Intn(len(RareTags))]
 	}
 	return g.pick(g.Tags)
 }
@@ -162,6 +222,19 @@ func (g *Gen) content() []byte { return g.Contents[g.R.Intn(len(g.Contents))] }
 func sha512Digest(c []byte) string {
 	h := sha512.Sum512(c)
 	return "sha512:" + hex.EncodeToString(h[:])
+}
+
+func sha384Digest(c []byte) string {
+	h := sha512.Sum384(c)
+	return "sha384:" + hex.EncodeToString(h[:])
+}
+
+// a well-formed digest of one of the registered algorithms other than sha256
+func (g *Gen) otherAlgDigest(c []byte) string {
+	if g.R.Intn(2) == 0 {
+		return sha384Digest(c)
+	}
+	return sha512Digest(c)
 }
 
 // a digest: usually of something known in the repo, sometimes of unknown content or malformed
@@ -177,9 +250,9 @@ func (g *Gen) blobDigest(repo string) string {
 	case p < 17:
 		return Sha(g.content())
 	case p == 17:
-		return "sha256:zz"
+		return g.pick(g.BadDigests)
 	case p == 18:
-		return sha512Digest(g.content())
+		return g.otherAlgDigest(g.content())
 	}
 	// a manifest digest used as a blob digest
 	if ml := g.Manifests[repo]; len(ml) > 0 {
@@ -199,8 +272,11 @@ func (g *Gen) manDigest(repo string) string {
 	if p < 18 {
 		return Sha(g.content())
 	}
-	if bl := g.Blobs[repo]; len(bl) > 0 {
+	if bl := g.Blobs[repo]; len(bl) > 0 && p == 18 {
 		return g.pick(bl)
+	}
+	if g.R.Intn(2) == 0 {
+		return g.pick(g.BadDigests)
 	}
 	return "notadigest"
 }
@@ -213,7 +289,14 @@ func (g *Gen) descFor(repo string, present bool, media string) ocispec.Descripto
 		}
 	}
 	c := g.content()
-	return g.decorate(ocispec.Descriptor{MediaType: media, Digest: digest.Digest(Sha(c)), Size: int64(len(c))})
+	d := Sha(c)
+	switch g.R.Intn(16) {
+	case 0: // well-formed, another registered algorithm: refers to nothing the registry holds
+		d = g.otherAlgDigest(c)
+	case 1: // no digest at all
+		d = g.pick(g.BadDigests)
+	}
+	return g.decorate(ocispec.Descriptor{MediaType: media, Digest: digest.Digest(d), Size: int64(len(c))})
 }
 
 // nearValid turns, now and then, a well-formed manifest document into a neighbour of it: bytes
@@ -369,7 +452,14 @@ func (g *Gen) maybeSubject(repo string, sub **ocispec.Descriptor) {
 			return
 		}
 		c := g.content()
-		*sub = &ocispec.Descriptor{MediaType: ocispec.MediaTypeImageManifest, Digest: digest.Digest(Sha(append([]byte("dangling"), c...))), Size: 3}
+		d := Sha(append([]byte("dangling"), c...))
+		switch g.R.Intn(8) {
+		case 0: // a subject may dangle whatever registered algorithm names it
+			d = g.otherAlgDigest(c)
+		case 1: // but it has to be a digest
+			d = g.pick(g.BadDigests)
+		}
+		*sub = &ocispec.Descriptor{MediaType: ocispec.MediaTypeImageManifest, Digest: digest.Digest(d), Size: 3}
 	}
 }
 
